@@ -1,4 +1,5 @@
 import Knut.Proofs.PrintParseTx
+import Knut.Proofs.PrintLoaded
 /-!
 # C09 (text level) — what `journal.Print` writes is read back by the loader as the same directive
 
@@ -26,8 +27,16 @@ covered: the printer writes the swapped accounts and the positive amount). The p
 (`JournalPrinter.descText`, character-wise as Go's `strings.ReplaceAll` on one ASCII byte) is the identity on such a
 description (`descText_id`); `PrintableTx` is decidable.
 
-Not proved (see `DESIGN_C09Text.md`): the lift to `JournalPrinter.print` of whole journals
-(`C09_text_journal_fixpoint` below is stated, not proved).
+**Whole journals** (`C09_text_journal_fixpoint`): for every printable journal `j` (`PrintableJournal`, decidable: days in
+strictly increasing date order, no day empty, every directive filed under its own date and printable) the text
+`journal.Print` writes is loaded back - parser model, elaboration, `transaction.Create` - as exactly the directives of `j`,
+day by day in print order; `journal.Builder` makes of them the days of `j` with the transactions in `journal.Sort` order;
+and printing that journal gives the same text again. Ingredients (`Proofs/PrintJournal.lean`, `PrintRebuild.lean`,
+`PrintSort.lean`, `PrintLoaded.lean`): `print j` is a rendering of items (one `dir` item per directive, `gap` items for the
+blank lines; a multi-balance assertion is closed by the blank line that follows it), `transaction.Compare` is a total
+preorder (`Std.TransCmp`), so the stable sort is idempotent, and the padding is a maximum over all postings.
+The hypothesis is what the builder produces (`C09_text_built_printable`, `C09_text_built_shape`) and what
+`transaction.Create` builds (`C09_text_created_normal_form`, `C09_text_loaded_normal_form`).
 -/
 namespace Knut.C09
 open Knut Knut.FromSyntax Knut.JournalPrinter Knut.Utf8 Knut.Syntax
@@ -66,20 +75,46 @@ theorem C09_text_decode (s : String) : decodeAll (strBytes s) = s.toList.map cha
 /-- the bytes `loadText` gets from the driver are `strBytes` -/
 theorem C09_text_bytes (s : String) : s.toUTF8.data.toList = strBytes s := strBytes_toUTF8 s
 
-/-
-NOT PROVED — the full statement of the text-level clause of C09, kept here verbatim:
+/-- **the text-level fixpoint of `knut print` for whole journals**: the printed text of a printable journal loads back to
+the directives of the journal (day by day, in print order), the builder groups them into the same days with the
+transactions in sort order, and printing again reproduces the text -/
+theorem C09_text_journal_fixpoint (path : String) (j : List Day) (h : PrintableJournal j) :
+    ∃ ds, loadText path (strBytes (print j)) = .ok ds ∧
+      ds = j.flatMap (fun d => d.prices.map .price ++ d.openings.map .opening ++ (sortTxs d.transactions).map .tx ++
+                              d.assertions.map .assertion ++ d.closings.map .closing) ∧
+      (Builder.ofList ds).build = j.map (fun d => { d with transactions := sortTxs d.transactions }) ∧
+      print (Builder.ofList ds).build = print j := by
+  refine ⟨journalDirs j, load_print path j h.dirs, rfl, rebuild j h.shape, ?_⟩
+  rw [rebuild j h.shape]
+  exact print_normDays j
 
-theorem C09_text_journal_fixpoint (path : String) (j : List Day)
-    (h : ∀ d ∈ j, PrintableDay d)   -- all directives printable, transactions in booking normal form, days sorted and non-empty
-    : ∃ ds, loadText path (strBytes (print j)) = .ok ds ∧
-        ds = j.flatMap (fun d => d.prices.map .price ++ d.openings.map .opening ++ (sortTxs d.transactions).map .tx ++
-                                d.assertions.map .assertion ++ d.closings.map .closing) ∧
-        print (Builder.ofList ds).build = print j
+/-- `journal.Sort` is idempotent (`transaction.Compare` is a total preorder; the model sorts stably) -/
+theorem C09_sort_idempotent (ts : List Transaction) : sortTxs (sortTxs ts) = sortTxs ts := sortTxs_idem ts
 
-Missing: (1) [done: `C09_text_transaction`]; (2) `print j` as a rendering of items
-(per day: directives followed by line breaks and blank lines) to feed `C09_text_items`; (3) `Builder.ofList` of the
-loaded directives rebuilds the same days.
--/
+/-- the hypothesis is not vacuous, structural part: EVERY journal the builder produces - from any directives, in any
+order - has its days in strictly increasing date order, no empty day, every directive under its own date -/
+theorem C09_text_built_shape (ds : List Directive) : JournalShape (Builder.ofList ds).build := built_shape ds
+
+/-- … and it is printable if the directives are -/
+theorem C09_text_built_printable (ds : List Directive) (h : ∀ x ∈ ds, PrintableDir x) :
+    PrintableJournal (Builder.ofList ds).build := printable_built ds h
+
+/-- the directives `journal.Print` writes are a permutation of the directives the journal was built from -/
+theorem C09_text_printed_perm (ds : List Directive) :
+    ((Builder.ofList ds).build.flatMap (fun d => d.prices.map .price ++ d.openings.map .opening ++
+      (sortTxs d.transactions).map .tx ++ d.assertions.map .assertion ++ d.closings.map .closing)).Perm ds :=
+  journalDirs_built_perm ds
+
+/-- the booking normal form `PrintableTx` asks for is what `transaction.Create` builds, with or without `@accrue` -/
+theorem C09_text_created_normal_form (ti : Accrual.TxInput) (txs : List Transaction) (h : Accrual.create ti = .ok txs) :
+    ∀ t ∈ txs, t.postings = (everyOther t.postings).flatMap (fun p => postingBuild p.other p.account p.commodity p.quantity) :=
+  create_nf ti txs h
+
+/-- hence every transaction the loader returns, from any text, is in booking normal form -/
+theorem C09_text_loaded_normal_form (path : String) (text : List UInt8) (ds : List Directive)
+    (h : loadText path text = .ok ds) (t : Transaction) (ht : Directive.tx t ∈ ds) :
+    t.postings = (everyOther t.postings).flatMap (fun p => postingBuild p.other p.account p.commodity p.quantity) :=
+  loadText_nf path text ds h t ht
 
 /-! ## Non-vacuity -/
 
@@ -119,5 +154,48 @@ example : PrintableTx exTx := by decide +kernel
 
 example : loadText "j" (strBytes (printTx 14 exTx)) = .ok [.tx exTx] :=
   C09_text_transaction 14 "j" exTx (by decide +kernel)
+
+/-! ### a whole journal -/
+
+def aBank : Account := ⟨["Assets", "Bank"]⟩
+def aDepot : Account := ⟨["Assets", "Depot", "Ünïcode7"]⟩
+def aSal : Account := ⟨["Income", "Salary"]⟩
+def aRent : Account := ⟨["Expenses", "Wohnen"]⟩
+
+/-- three days, every kind of directive. 2020-01-01: a price, four openings; 2020-01-02: a price, three transactions
+(stored out of sort order; one booking negative, one transaction with two bookings, a two-line description and
+`@performance` targets), a single-balance and then a multi-balance assertion; 2020-02-01: a multi-balance assertion
+followed by a single-balance one, a closing. `knut print` of the real binary reproduces the printed text of this
+journal byte for byte. -/
+def exJournal : List Day :=
+  [ { date := 737424, prices := [⟨737424, "AAPL", mkRat 12345 100, "USD"⟩],
+      openings := [⟨737424, aBank⟩, ⟨737424, aDepot⟩, ⟨737424, aSal⟩, ⟨737424, aRent⟩] },
+    { date := 737425,
+      prices := [⟨737425, "USD", mkRat 9 10, "CHF"⟩],
+      transactions :=
+        [ { date := 737425, description := "Miete – Januar", postings := postingBuild aRent aBank "CHF" (mkRat (-25) 2) },
+          { date := 737425, description := "Lohn", postings := postingBuild aSal aBank "CHF" 5000 },
+          { date := 737425, description := "Kauf\nzweite Zeile", targets := some ["AAPL", "USD"],
+            postings := postingBuild aBank aDepot "AAPL" 3 ++ postingBuild aBank aDepot "USD" (mkRat 37035 100) } ],
+      assertions := [⟨737425, [⟨aBank, mkRat 9975 2, "CHF"⟩]⟩,
+                     ⟨737425, [⟨aDepot, 3, "AAPL"⟩, ⟨aBank, mkRat (-37035) 100, "USD"⟩]⟩] },
+    { date := 737455,
+      assertions := [⟨737455, [⟨aDepot, 3, "AAPL"⟩, ⟨aDepot, mkRat 37035 100, "USD"⟩]⟩, ⟨737455, [⟨aBank, mkRat 9975 2, "CHF"⟩]⟩],
+      closings := [⟨737455, aSal⟩] } ]
+
+theorem exJournal_printable : PrintableJournal exJournal := by decide +kernel
+
+/-- the theorem applies: the printed text of `exJournal` loads, rebuilds and prints to itself -/
+example : ∃ ds, loadText "j" (strBytes (print exJournal)) = .ok ds ∧ ds.length = 14 ∧ print (Builder.ofList ds).build = print exJournal := by
+  obtain ⟨ds, h1, h2, _, h4⟩ := C09_text_journal_fixpoint "j" exJournal exJournal_printable
+  refine ⟨ds, h1, ?_, h4⟩
+  rw [h2]
+  simp [exJournal, sortTxs]
+
+/-- an empty day, a directive under a wrong date, days out of order: not printable journals -/
+example : ¬ PrintableJournal [{ date := 737424 }] := by decide +kernel
+example : ¬ PrintableJournal [{ date := 737424, openings := [⟨737425, aBank⟩] }] := by decide +kernel
+example : ¬ PrintableJournal [{ date := 737425, openings := [⟨737425, aBank⟩] }, { date := 737424, openings := [⟨737424, aSal⟩] }] := by
+  decide +kernel
 
 end Knut.C09
